@@ -86,6 +86,18 @@ pub fn main(args: &[String]) -> i32 {
 /// Code under test that does not return cannot wedge or starve the harness: if the child stays
 /// silent for longer than the per-line deadline it is killed and a `hang` event is recorded.
 fn run_child(inst: &Value) -> Vec<String> {
+    // A silent child is killed; but silence can also be a loaded machine.  A hang is therefore
+    // reported only if it reproduces with a deadline eight times as long.
+    let budget_ms = inst["budget_ms"].as_u64().unwrap_or(4000);
+    let (lines, hung) = run_child_with(inst, Duration::from_millis(5 * budget_ms + 1500));
+    if !hung {
+        return lines;
+    }
+    let (lines2, _) = run_child_with(inst, Duration::from_millis(8 * (5 * budget_ms + 1500)));
+    lines2
+}
+
+fn run_child_with(inst: &Value, deadline: Duration) -> (Vec<String>, bool) {
     use std::io::{BufRead, BufReader};
     use std::process::{Command, Stdio};
     let exe = std::env::current_exe().unwrap();
@@ -114,15 +126,15 @@ fn run_child(inst: &Value) -> Vec<String> {
             }
         }
     });
-    let budget_ms = inst["budget_ms"].as_u64().unwrap_or(4000);
-    let deadline = Duration::from_millis(5 * budget_ms + 1500);
     let mut lines = Vec::new();
+    let mut hung = false;
     loop {
         match rx.recv_timeout(deadline) {
             Ok(l) => lines.push(l),
             Err(std::sync::mpsc::RecvTimeoutError::Timeout) => {
                 let _ = child.kill();
                 lines.push(json!({"ev": "hang", "after_lines": lines.len()}).to_string());
+                hung = true;
                 break;
             }
             Err(std::sync::mpsc::RecvTimeoutError::Disconnected) => break,
@@ -134,7 +146,7 @@ fn run_child(inst: &Value) -> Vec<String> {
         lines.push(json!({"ev": "reset", "id": inst["id"], "y": inst["y"], "kind": inst["kind"]}).to_string());
         lines.push(json!({"ev": "crash"}).to_string());
     }
-    lines
+    (lines, hung)
 }
 
 pub fn child_main() -> i32 {
